@@ -737,19 +737,25 @@ func (b *Block) getNumVoxels(labelIndex uint32) (labelVoxels uint64) {
 				default:
 				}
 
+				// After a merge the same label index can sit in several slots of one sub-block.
 				var found bool
-				var targetIndex uint16
+				isTarget := make([]bool, numSBLabels)
 				for i := uint16(0); i < numSBLabels; i++ {
 					if b.SBIndices[indexPos] == labelIndex {
 						found = true
-						targetIndex = i
+						isTarget[i] = true
 					}
 					indexPos++
 				}
+				bits := int(bitsFor(numSBLabels))
 				if !found {
+					// still step over this sub-block's packed values (padded to a byte boundary)
+					bitpos += int(subBlockNumVoxels) * bits
+					if bitpos%8 != 0 {
+						bitpos += 8 - (bitpos % 8)
+					}
 					continue
 				}
-				bits := int(bitsFor(numSBLabels))
 
 				var x, y, z int32
 				for z = 0; z < SubBlockSize; z++ {
@@ -768,7 +774,7 @@ func (b *Block) getNumVoxels(labelIndex uint32) (labelVoxels uint64) {
 								index |= uint16(b.SBValues[bytepos+1])
 								index >>= uint(16 - bithead - bits)
 							}
-							if index == targetIndex {
+							if int(index) < len(isTarget) && isTarget[index] {
 								labelVoxels++
 							}
 							bitpos += bits
